@@ -878,7 +878,7 @@ impl World {
                 self.sh.objs[op.b as usize].s[op.c as usize] = Some(t);
             }
             // ------------------------------------------------------------------ finalization
-            K::FinQuery | K::FinRes | K::FinResStore | K::FinGcRes | K::PFin | K::FinResLeaf | K::FinResChild => return self.finalize(op),
+            K::FinQuery | K::FinRes | K::FinResStore | K::FinResInto | K::FinGcRes | K::PFin | K::FinResLeaf | K::FinResChild => return self.finalize(op),
             // ------------------------------------------------------------------ collector
             K::CycleStep => {
                 self.norm(op.a);
@@ -1155,7 +1155,7 @@ impl World {
                     }
                 }
                 match op.k {
-                    K::FinRes | K::FinResStore | K::PFin | K::FinGcRes => {
+                    K::FinRes | K::FinResStore | K::FinResInto | K::PFin | K::FinGcRes => {
                         let holder = this.node(&m, op.a);
                         let wk = holder.wk().unwrap();
                         let t = this.sh.objs[op.a as usize].w.unwrap();
@@ -1180,6 +1180,10 @@ impl World {
                             newly = Some(t);
                             if op.k == K::FinResStore {
                                 link(fc, this.node(&m, op.b), op.c, Some(g));
+                            }
+                            if op.k == K::FinResInto {
+                                // a write barrier on the object that was revived a moment ago
+                                link(fc, g, 0, Some(this.node(&m, op.b)));
                             }
                         }
                         // after the callback's own barriers and resurrections: whatever was strongly reachable is
@@ -1244,6 +1248,9 @@ impl World {
             }
             if op.k == K::FinResStore {
                 self.sh.objs[op.b as usize].s[op.c as usize] = Some(n);
+            }
+            if op.k == K::FinResInto {
+                self.sh.objs[n as usize].s[0] = Some(op.b);
             }
         }
         self.check()
